@@ -352,6 +352,102 @@ def translate_io_loop(tree):
     return _lstmts(loops[0].body)
 
 
+def translate_readlink(tree):
+    """psutil/_pslinux.py:readlink() -> Gallina rprog (coq/C14/PyPath.v)"""
+    import ast
+    fns = [n for n in tree.body if isinstance(n, ast.FunctionDef) and n.name == "readlink"]
+    if len(fns) != 1 or [a.arg for a in fns[0].args.args] != ["path"] or fns[0].decorator_list:
+        raise TranslateError("readlink: not exactly one plain module-level def readlink(path)")
+    body = list(fns[0].body)
+    if body and isinstance(body[0], ast.Expr) and isinstance(body[0].value, ast.Constant) and isinstance(body[0].value.value, str):
+        body = body[1:]
+    if not (body and isinstance(body[-1], ast.Return) and _is_name(body[-1].value, "path")):
+        raise TranslateError("readlink: does not end in 'return path'")
+    out = []
+    for st in body[:-1]:
+        if isinstance(st, ast.Assert):
+            if any(isinstance(n, (ast.Call,)) and not _is_name(n.func, "isinstance") for n in ast.walk(st)):
+                raise TranslateError("readlink: assert with a call other than isinstance()")
+            out.append("RAssert")
+        elif (_assign_to(st, "path") and isinstance(st.value, ast.Call) and isinstance(st.value.func, ast.Attribute)
+              and st.value.func.attr == "readlink" and _is_name(st.value.func.value, "os") and len(st.value.args) == 1
+              and _is_name(st.value.args[0], "path") and not st.value.keywords):
+            out.append("ROsReadlink")
+        elif (_assign_to(st, "path") and isinstance(st.value, ast.Subscript) and isinstance(st.value.slice, ast.Constant)
+              and st.value.slice.value == 0 and isinstance(st.value.value, ast.Call)
+              and isinstance(st.value.value.func, ast.Attribute) and st.value.value.func.attr == "split"
+              and _is_name(st.value.value.func.value, "path") and len(st.value.value.args) == 1 and not st.value.value.keywords):
+            out.append("(RSplitFirst %s)" % _str_const(st.value.value.args[0]))
+        elif isinstance(st, ast.If) and not st.orelse and len(st.body) == 1:
+            t = st.test
+            ok = (isinstance(t, ast.BoolOp) and isinstance(t.op, ast.And) and len(t.values) == 2
+                  and isinstance(t.values[0], ast.Call) and isinstance(t.values[0].func, ast.Attribute)
+                  and t.values[0].func.attr == "endswith" and _is_name(t.values[0].func.value, "path")
+                  and len(t.values[0].args) == 1 and not t.values[0].keywords
+                  and isinstance(t.values[1], ast.UnaryOp) and isinstance(t.values[1].op, ast.Not)
+                  and isinstance(t.values[1].operand, ast.Call) and _is_name(t.values[1].operand.func, "path_exists_strict")
+                  and len(t.values[1].operand.args) == 1 and _is_name(t.values[1].operand.args[0], "path"))
+            b = st.body[0]
+            okb = (_assign_to(b, "path") and isinstance(b.value, ast.Subscript) and _is_name(b.value.value, "path")
+                   and isinstance(b.value.slice, ast.Slice) and b.value.slice.lower is None and b.value.slice.step is None
+                   and isinstance(b.value.slice.upper, ast.UnaryOp) and isinstance(b.value.slice.upper.op, ast.USub)
+                   and isinstance(b.value.slice.upper.operand, ast.Constant) and type(b.value.slice.upper.operand.value) is int
+                   and 0 < b.value.slice.upper.operand.value < 1000)
+            if not (ok and okb):
+                raise TranslateError("readlink: if-statement not understood: " + ast.dump(st)[:300])
+            out.append("(RIfSuffixNotExists %s %d%%nat)" % (_str_const(t.values[0].args[0]), b.value.slice.upper.operand.value))
+        else:
+            raise TranslateError("readlink: statement not understood: " + ast.dump(st)[:300])
+    return "[%s]" % "; ".join(out)
+
+
+def translate_strict(tree, name):
+    """psutil/_common.py:isfile_strict / path_exists_strict -> Gallina strictfn (coq/C14/PyPath.v)"""
+    import ast
+    fns = [n for n in tree.body if isinstance(n, ast.FunctionDef) and n.name == name]
+    if len(fns) != 1 or [a.arg for a in fns[0].args.args] != ["path"] or fns[0].decorator_list:
+        raise TranslateError("%s: not exactly one plain module-level def %s(path)" % (name, name))
+    body = list(fns[0].body)
+    if body and isinstance(body[0], ast.Expr) and isinstance(body[0].value, ast.Constant) and isinstance(body[0].value.value, str):
+        body = body[1:]
+    if len(body) != 1 or not isinstance(body[0], ast.Try) or body[0].finalbody:
+        raise TranslateError("%s: body is not a single try statement" % name)
+    t = body[0]
+
+    def is_os_stat(e):
+        return (isinstance(e, ast.Call) and isinstance(e.func, ast.Attribute) and e.func.attr == "stat"
+                and _is_name(e.func.value, "os") and len(e.args) == 1 and _is_name(e.args[0], "path") and not e.keywords)
+    if not (len(t.body) == 1 and ((isinstance(t.body[0], ast.Expr) and is_os_stat(t.body[0].value))
+                                  or (_assign_to(t.body[0], "st") and is_os_stat(t.body[0].value)))):
+        raise TranslateError("%s: try body is not a single os.stat(path)" % name)
+    hs = []
+    for h in t.handlers:
+        if h.name is not None or h.type is None or len(h.body) != 1:
+            raise TranslateError("%s: handler not understood" % name)
+        types = h.type.elts if isinstance(h.type, ast.Tuple) else [h.type]
+        if not all(isinstance(x, ast.Name) for x in types):
+            raise TranslateError("%s: handler class not a plain name" % name)
+        b = h.body[0]
+        if isinstance(b, ast.Raise) and b.exc is None:
+            act = "HReraise"
+        elif isinstance(b, ast.Return) and isinstance(b.value, ast.Constant) and b.value.value is False:
+            act = "HFalse"
+        else:
+            raise TranslateError("%s: handler body is neither `raise` nor `return False`" % name)
+        hs.append("([%s], %s)" % ("; ".join(G.by(x.id) for x in types), act))
+    if len(t.orelse) != 1 or not isinstance(t.orelse[0], ast.Return):
+        raise TranslateError("%s: else clause is not a single return" % name)
+    r = t.orelse[0].value
+    if isinstance(r, ast.Constant) and r.value is True:
+        el = "ETrue"
+    elif (isinstance(r, ast.Call) and isinstance(r.func, ast.Attribute) and r.func.attr == "S_ISREG" and _is_name(r.func.value, "stat")
+          and len(r.args) == 1 and isinstance(r.args[0], ast.Attribute) and r.args[0].attr == "st_mode" and _is_name(r.args[0].value, "st")):
+        el = "EIsReg"
+    else:
+        raise TranslateError("%s: else clause returns neither True nor stat.S_ISREG(st.st_mode)" % name)
+    return "{| sf_handlers := [%s]; sf_else := %s |}" % ("; ".join(hs), el)
+
+
 def gen_tables(impl_dir, out_dir):
     """Translate file_flags_to_mode and the constants of Process.io_counters of the tree under check into
     coq/Gen/C14_Tables.v.  coq/C14/ProofsGen.v proves the translated program equal to the model on every flag word
@@ -365,11 +461,18 @@ def gen_tables(impl_dir, out_dir):
     prog = translate_file_flags_to_mode(fns[0])
     keys, sep, fields = translate_io_counters(tree)
     loop = translate_io_loop(tree)
+    rl = translate_readlink(tree)
+    ctree = ast.parse(open(os.path.join(impl_dir, "psutil", "_common.py")).read())
+    isf = translate_strict(ctree, "isfile_strict")
+    pes = translate_strict(ctree, "path_exists_strict")
     txt = "\n".join([
         "(* GENERATED by props/C14.py (gen_tables) from psutil/_pslinux.py of the tree under check -- do not edit. *)",
-        "From PV Require Import C14.PyMini C14.PyLoop.", "",
+        "From PV Require Import C14.PyMini C14.PyLoop C14.PyPath.", "",
         "Definition gen_mode_prog : prog :=\n  %s." % prog, "",
         "Definition gen_io_loop : lprog :=\n  %s." % loop, "",
+        "Definition gen_readlink : rprog :=\n  %s." % rl, "",
+        "Definition gen_isfile_strict : strictfn :=\n  %s." % isf,
+        "Definition gen_path_exists_strict : strictfn :=\n  %s." % pes, "",
         "Definition gen_pio_keys : list bytes :=\n  [%s]." % "; ".join(G.by(k) for k in keys),
         "Definition gen_io_sep : bytes := %s." % G.by(sep),
         "Definition gen_pio_fields : list bytes :=\n  [%s]." % "; ".join(G.by(f) for f in fields), ""])
@@ -427,6 +530,7 @@ PSEUDO_REG = {"reg_dev_shm": "/dev/shm", "reg_dev_mqueue": "/dev/mqueue", "reg_d
               "reg_run": "/run/lock", "reg_sys": "/sys/kernel/debug", "reg_proc": "/proc/pv14"}
 DECOY_IO = (b"rchar: 424242\nwchar: 424242\nsyscr: 424242\nsyscw: 424242\nread_bytes: 424242\nwrite_bytes: 424242\n"
             b"cancelled_write_bytes: 0\n")
+SHM_BASE = "/dev/shm/pvshmbase"  # placeholder of the worker's private directory below /dev/shm (live cases)
 BASE = "/pvbase"  # placeholder replaced by the worker's real directory; same length irrelevant to the model
 
 
@@ -488,7 +592,7 @@ def _live_target(e, base):
     if k == "reg":
         return f, True, True, e["pos"]
     if k == "reg_shm":                # a real regular file below /dev (POSIX shared memory lives there)
-        return "/dev/shm/pv14_live_%d" % e["fd"], True, True, e["pos"]
+        return "%s/l%d" % (SHM_BASE if base == BASE else base + "@shm", e["fd"]), True, True, e["pos"]
     if k == "reg_deleted_gone":
         return f + " (deleted)", False, False, e["pos"]      # after unlink the cleaned path names no file: not listed
     if k == "reg_deleted_present":
@@ -728,12 +832,18 @@ def _impl_live(case, coq, env, psutil):
     psutil.PROCFS_PATH = "/proc"
     opened = []
     shm_files = []
+    real_shm = None
+    if any(e["kind"] == "reg_shm" for e in case["ents"]):
+        if not os.access("/dev/shm", os.W_OK):
+            return {"t": "Skip", "a": ["/dev/shm not writable"]}
+        import tempfile
+        real_shm = tempfile.mkdtemp(prefix="pv14_", dir="/dev/shm")     # private to this case: workers run concurrently
     try:
         for idx, e in enumerate(case["ents"]):
             raw, ex, isreg, pos = _live_target(e, real_base)
+            if e["kind"] == "reg_shm":
+                raw = "%s/l%d" % (real_shm, e["fd"])
             k, req, want = e["kind"], e["req"], e["fd"]
-            if k == "reg_shm" and not os.access("/dev/shm", os.W_OK):
-                return {"t": "Skip", "a": ["/dev/shm not writable"]}
             if k in ("reg", "reg_deleted_gone", "reg_deleted_present", "reg_shm"):
                 path = raw if k == "reg_deleted_present" else raw.replace(" (deleted)", "")
                 if k == "reg_shm":
@@ -784,8 +894,11 @@ def _impl_live(case, coq, env, psutil):
         mine = {e["fd"] for e in case["ents"]}
 
         def conv(rows):
-            return [[B(os.fsencode(r.path).replace(real_base.encode(), BASE.encode())), r.fd, r.position, B(r.mode), r.flags]
-                    for r in rows if r.fd in mine]
+            def unreal(b):
+                if real_shm is not None:
+                    b = b.replace(real_shm.encode(), SHM_BASE.encode())
+                return b.replace(real_base.encode(), BASE.encode())
+            return [[B(unreal(os.fsencode(r.path))), r.fd, r.position, B(r.mode), r.flags] for r in rows if r.fd in mine]
         p = psutil.Process()
         res = outcome(p.open_files, conv)
         n = p.num_fds()
@@ -798,11 +911,8 @@ def _impl_live(case, coq, env, psutil):
                 os.close(fd)
             except OSError:
                 pass
-        for f in shm_files:
-            try:
-                os.unlink(f)
-            except OSError:
-                pass
+        if real_shm is not None:
+            shutil.rmtree(real_shm, ignore_errors=True)
 
 
 MANIFEST = {
@@ -811,8 +921,8 @@ MANIFEST = {
             "with fd/offset/flags/mode and never fails for a live process (tables with a listed access-mode-3 file excluded: known finding, refuted "
             "theorem kept); num_fds counts all; io_counters returns the six counters for every file of numeric, blank, colon-free and non-numeric "
             "lines (last duplicate wins); answers depend only on the procfs mount the Process object is bound to; the kernel's reported flag word keeps what the mode depends on. "
-            "Tie to the code: file_flags_to_mode and the io_counters constants are re-translated from the current source on every run and proved equal to the model for every flag word "
-            "(C14_translated_mode_is_model); the rest of the model is tied by running model and code on generated tables and files (exhaustive over 512 flag words), including cases over the real /proc "
+            "Tie to the code: file_flags_to_mode, the loop body and constants of io_counters, readlink() and the stat helpers isfile_strict/path_exists_strict are re-translated from the current source "
+            "on every run and proved equal to the model for every input (C14_translated_*); the rest of the model is tied by running model and code on generated tables and files (exhaustive over 512 flag words), including cases over the real /proc "
             "that validate the specification's kernel printer against the running kernel.",
     "note": "Trusted: Coq kernel + vm_compute; translator props/C14.py:gen_tables + interpreter coq/C14/PyMini.v; hand-written model coq/C14/Model.v of open_files/num_fds/io_counters (tied by the correspondence run only); kernel formats in coq/C14/Spec.v (validated against the running kernel by the live cases); "
             "harness (fake /proc, os.readlink/os.stat/os.listdir patches); CPython builtins. Proof covers the model, sampling covers model-vs-code.",
